@@ -146,3 +146,78 @@ def _memo_control():
     if not stores or not any(inherited_reads(tree, a) for _, a, _ in stores):
         raise AnalysisError('positive control failed: the class-memo rule '
                             'does not match its fixture')
+
+
+def _evidently_str(e, cls, prog):
+    if isinstance(e, ast.Constant):
+        return isinstance(e.value, str)
+    if isinstance(e, ast.JoinedStr):
+        return True
+    if isinstance(e, ast.Call):
+        f = e.func
+        if isinstance(f, ast.Name) and f.id in ('str', 'repr', 'format'):
+            return True
+        if isinstance(f, ast.Attribute) and f.attr in (
+                'format', 'join', 'decode', 'strip', 'lower', 'upper',
+                'replace', 'title'):
+            return True
+        return False
+    if isinstance(e, ast.BinOp) and isinstance(e.op, (ast.Add, ast.Mod)):
+        return _evidently_str(e.left, cls, prog)
+    if isinstance(e, ast.Attribute) and isinstance(e.value, ast.Name) and \
+            e.value.id == 'self' and cls is not None:
+        for k in prog.mro(cls):
+            v = k.attrs.get(e.attr)
+            if v is not None:
+                return isinstance(v, ast.Constant) and \
+                    isinstance(v.value, str)
+        return None            # unknown: set by a constructor
+    if isinstance(e, ast.IfExp):
+        a = _evidently_str(e.body, cls, prog)
+        b = _evidently_str(e.orelse, cls, prog)
+        return False if (a is False or b is False) else (
+            True if a and b else None)
+    return None
+
+
+def failure_text_is_text(ctx, rule_id, consequence):
+    """The handlers that close a connection on a protocol failure first turn
+    the exception into text (log.msg('...' + str(e))).  `__str__` of the
+    package's exception classes must therefore return a string on every
+    path: `return self.args and str(self.args[0])` returns the EMPTY TUPLE
+    for an exception raised without arguments, str(e) raises TypeError, and
+    the statement after it - loseConnection() - never runs."""
+    prog = ctx.prog
+    n = 0
+    for c in prog.all_classes.values():
+        if c.module.name != 'error':
+            continue
+        for mname in ('__str__', '__repr__'):
+            f = c.methods.get(mname)
+            if f is None:
+                continue
+            for node in prog._iter_scope(f.node):
+                if not (isinstance(node, ast.Return) and
+                        node.value is not None):
+                    continue
+                n += 1
+                v = node.value
+                bad = None
+                if isinstance(v, ast.BoolOp):
+                    # every operand but the last may be the result
+                    for op in v.values[:-1] if isinstance(v.op, ast.And) \
+                            else v.values:
+                        if _evidently_str(op, c, prog) is not True and not (
+                                isinstance(v.op, ast.Or) and
+                                _evidently_str(op, c, prog) is None):
+                            bad = ast.unparse(op)
+                            break
+                elif _evidently_str(v, c, prog) is False:
+                    bad = ast.unparse(v)
+                ctx.ob(rule_id, f.qualname, 'text-of-a-failure-is-text',
+                       bad is None,
+                       '%s can return %s, which is not a string: str(e) '
+                       'raises TypeError inside the handler that reports the '
+                       'failure (%s)' % (f.qualname, bad, consequence),
+                       nontrivial=bad is not None)
+    ctx.extra['exception_text_methods'] = n
